@@ -598,6 +598,16 @@ public:
         PairOpts po;
         po.tp = r.tp;
         po.small_bufs = small;
+        // C03 "every phase": a third of the cases start sending while XCM still regards the
+        // TCP handshake as pending (the shim answers "in progress" to the next status probes)
+        // and, for TLS, before the handshake is complete
+        bool early = g_mode == M_C03 && is_tcp_based(r.tp) && cfg.ch(3) == 0;
+        if (early) {
+            int nd = (int)cfg.range(2, 30);
+            for (int i = 0; i < nd; i++) sh_push(po.client_tag, SH_CONN, SH_DELAY, 0);
+            po.drive_to_ready = false;
+            c.cls("sends-before-established");
+        }
         std::string err = make_pair(po, r.s[0].ep, r.s[1].ep);
         VF_CHECK(err.empty(), "setup: %s pair: %s", tp_name(r.tp), err.c_str());
         // at most one blocking endpoint (its calls run in a worker thread while
@@ -605,6 +615,7 @@ public:
         int bsel = cfg.ch(8);
         int blocking_side = bsel == 0 ? 0 : bsel == 1 ? 1 : -1;
         if (getenv("VF_BLOCKING")) blocking_side = atoi(getenv("VF_BLOCKING"));
+        if (early) blocking_side = -1;
         if (r.tp == BTLS && blocking_side >= 0 && excluded("btls-refused-send-not-retried-identically")) {
             // the exclusion's identical-retry loop needs a peer the main thread can drain
             count_exclusion("btls-blocking-endpoint-with-refused-send-exclusion");
